@@ -155,3 +155,53 @@ theorem gramImpl_eq (N n : ℕ) (t : ℕ → ℚ) (X : ℕ → ℕ → ℚ) (σ2
       exact gram_symm' N n t X k i
 
 end FDA.FPCA
+
+namespace FDA.FPCA
+open Finset
+
+/-- Row-major flattening of a double sum: `Σ_{j<m₁m₂} f (j/m₂) (j%m₂) = Σ_a Σ_b f a b`. -/
+theorem sum_flat (m₁ m₂ : ℕ) (f : ℕ → ℕ → ℚ) :
+    ∑ j ∈ range (m₁ * m₂), f (j / m₂) (j % m₂) = ∑ a ∈ range m₁, ∑ b ∈ range m₂, f a b := by
+  rcases Nat.eq_zero_or_pos m₂ with h0 | hpos
+  · subst h0; simp
+  induction m₁ with
+  | zero => simp
+  | succ n ih =>
+    rw [Nat.succ_mul, Finset.sum_range_add, ih, Finset.sum_range_succ]
+    congr 1
+    apply Finset.sum_congr rfl
+    intro b hb
+    have hb := mem_range.1 hb
+    have h1 : (n * m₂ + b) / m₂ = n := by
+      rw [Nat.mul_comm, Nat.mul_add_div hpos, Nat.div_eq_of_lt hb, Nat.add_zero]
+    have h2 : (n * m₂ + b) % m₂ = b := by
+      rw [Nat.mul_comm, Nat.mul_add_mod, Nat.mod_eq_of_lt hb]
+    rw [h1, h2]
+
+/-- 2-D scores by nested `np.trapz` are the flat weighted sums with the product weights. -/
+theorem scoresTrapz2_eq_scoresW (m₁ m₂ : ℕ) (h₁ : 2 ≤ m₁) (h₂ : 2 ≤ m₂) (t₁ t₂ : ℕ → ℚ)
+    (Z Phi : ℕ → ℕ → ℚ) (i k : ℕ) :
+    scoresTrapz2 m₁ m₂ t₁ t₂ Z Phi i k = scoresW (m₁ * m₂) (trapzW2 m₁ m₂ t₁ t₂) Z Phi i k := by
+  unfold scoresTrapz2 scoresW innerWF integrate2
+  rw [FDA.trapz_eq_weights m₂ t₂ _ h₂]
+  simp_rw [FDA.trapz_eq_weights m₁ t₁ _ h₁]
+  have hpos : 0 < m₂ := by omega
+  have key : ∀ j ∈ range (m₁ * m₂), trapzW2 m₁ m₂ t₁ t₂ j * (Z i j * Phi k j)
+      = (fun a b => trapzW m₁ t₁ a * trapzW m₂ t₂ b * (Z i (a * m₂ + b) * Phi k (a * m₂ + b))) (j / m₂) (j % m₂) := by
+    intro j _
+    have : j / m₂ * m₂ + j % m₂ = j := by rw [Nat.mul_comm]; exact Nat.div_add_mod j m₂
+    simp only [trapzW2, this]
+  rw [Finset.sum_congr rfl key,
+    sum_flat m₁ m₂ (fun a b => trapzW m₁ t₁ a * trapzW m₂ t₂ b * (Z i (a * m₂ + b) * Phi k (a * m₂ + b))),
+    Finset.sum_comm]
+  apply Finset.sum_congr rfl; intro b _
+  rw [Finset.mul_sum]
+  apply Finset.sum_congr rfl; intro a _
+  ring
+
+theorem scoresTrapz_eq_scoresW (m : ℕ) (hm : 2 ≤ m) (t : ℕ → ℚ) (Z Phi : ℕ → ℕ → ℚ) (i k : ℕ) :
+    scoresTrapz m t Z Phi i k = scoresW m (trapzW m t) Z Phi i k := by
+  unfold scoresTrapz scoresW innerWF
+  rw [FDA.trapz_eq_weights m t _ hm]
+
+end FDA.FPCA
